@@ -68,6 +68,16 @@ def tag_value(tag, x):
     return float(x)
 
 
+class _Stag(object):
+    """time ordinate of slice s in volume t: t + [rank of s among the positions < r]"""
+    def __init__(self, S, r, asc):
+        self.S, self.r, self.asc = S, r, asc
+
+    def __call__(self, s, t, v):
+        rank = s if self.asc else self.S - 1 - s
+        return 2 + t + (1 if rank < self.r else 0)
+
+
 def make_grid(rng, S, T, V, orient='ax', direction=1, gap=2.0, origin=(0., 0., 0.), rows=2, cols=3,
               ps=(1.0, 1.0), tagrules=None, consts=None):
     """A complete S x T x V grid.  `tagrules`: {tag: rule} with rule in
@@ -514,7 +524,14 @@ def rand_config(rng, tier, want=None):
         key = rng.choice(['EchoTime', 'TriggerTime', 'AcquisitionNumber', 'AcquisitionTime', 'InversionTime'])
         rules[key] = rng.choice(['t', 't', 'trev', 'tv'])
         cfg['time_order'] = {'key': key, 'abs': None}
-        if rng.random() < 0.2 and key not in TM_TAGS:
+        if S >= 2 and rng.random() < 0.25:
+            # staggered time ordinate: the r lowest positions of volume t carry the value of volume t+1, so a run
+            # of equal time values straddles every volume boundary (the code accepts this: only the cut of the
+            # sorted list into runs of S is checked)
+            r = rng.randrange(1, S)
+            asc = cfg['direction'] == 1
+            rules[key] = _Stag(S, r, asc)
+        elif rng.random() < 0.2 and key not in TM_TAGS:
             rule = rules[key]
             vals = sorted(set(tag_value(key, {'t': 2 + 3 * t, 'trev': 20 - 3 * t, 'tv': 1 + t + T * v}[rule])
                               for t in range(T) for v in range(V)))
